@@ -108,7 +108,7 @@ PROPS = {
     },
     "C12": {
         "modules": ["contracts.worker_units", "contracts.dispatcher_units", "contracts.c11_ports"],
-        "unit_filter": ["retr_worker@retr", "stor_worker@stor", "stor_worker@appe", "list_worker@list", "mlsd_worker@mlsd", "Server.dispatcher/finally", "Server._start_passive_server", "Server.close", "Server.response_writer"],
+        "unit_filter": ["retr_worker@retr", "stor_worker@stor", "stor_worker@appe", "list_worker@list", "mlsd_worker@mlsd", "Server.dispatcher/finally", "Server._start_passive_server", "Server.close", "Server.close#any-number-of-sessions", "Server.response_writer"],
         "level": "proof",
         "trusted_base": [T_PY, T_ENGINE, T_SOLVER, T_AIO, T_CONN, T_IND],
         "assumptions": [
